@@ -206,12 +206,17 @@ def r3(ctx):
         sel = []
         if ok:
             for a in walk_no_nested(loops[0]):
-                if isinstance(a, ast.Assign) and isinstance(
-                        a.value, ast.Subscript) and src(a.value.value) in (
-                            'dz_abs', 'z_mod'):
-                    e = U.expand_locals(ps.node, a.value.slice, depth=1,
-                                        before=a.lineno, keep=pred_names)
-                    sel.append((a, e))
+                if not isinstance(a, ast.Assign):
+                    continue
+                for x in ast.walk(a.value):
+                    # dz_abs[mask] / z_mod[mask], possibly inside a call
+                    if isinstance(x, ast.Subscript) and src(x.value) in (
+                            'dz_abs', 'z_mod') and isinstance(
+                                x.ctx, ast.Load):
+                        e = U.expand_locals(ps.node, x.slice, depth=1,
+                                            before=a.lineno,
+                                            keep=pred_names)
+                        sel.append((a, e))
             ok = len(sel) == 2 and all(
                 any(p in {x.id for x in ast.walk(e)
                           if isinstance(x, ast.Name)} for p in pred_names)
@@ -234,7 +239,13 @@ def r3(ctx):
                     'height covered by the selected steps, not the full cell '
                     'height', key=ps.full + ' | normalisation target')
     # the factor is stored and consumed per cell
-    st = find_all('self._renorm = renorm', ps.node, 'stmt')
+    # value stored as the per-cell factor (locals expanded flow-sensitively)
+    st = [x for t, x in U.stores(ps.node) if src(t) == 'self._renorm'
+          and isinstance(x, ast.Assign)]
+    stored = None
+    if len(st) == 1:
+        stored = ' '.join(src(U.value_at(ps.node, st[0].value, st[0].lineno,
+                                         keep=('expected', 'total'))).split())
     gp = repo.func('power', 'AssemblyPower.get_power_sweep')
     use = find_all('self._calculate_pdist(kf, z, z_mod, self._renorm[kf])',
                    gp.node)
@@ -243,9 +254,9 @@ def r3(ctx):
                 'the sweep must apply the factor of the current power cell',
                 key=gp.full + ' | renorm applied')
     # division guarded against empty cells
-    dv = find_all('np.divide(renorm, total, out=np.ones_like(renorm), '
-                  'where=total != 0)', ps.node)
-    ctx.require(bool(dv), 'C03.R3', ps, dv[0][0] if dv else ps.node,
+    dv = stored == ('np.divide(expected, total, out=np.ones_like(expected), '
+                    'where=total != 0)')
+    ctx.require(bool(dv), 'C03.R3', ps, st[0] if st else ps.node,
                 'cells without in-bundle power keep factor 1',
                 key=ps.full + ' | zero total')
 
